@@ -1043,7 +1043,7 @@ func buildCases(rng *core.Rand) []caseDef {
 	for i := off; i < len(en); i += stride {
 		cases = append(cases, en[i])
 	}
-	nr := core.N(2000, 50000)
+	nr := core.N(2000, 30000)
 	for i := 0; i < nr; i++ {
 		cases = append(cases, randomCase(i, rng.Fork(uint64(i)).U64()))
 	}
